@@ -637,7 +637,10 @@ class PVLParser(object):
                 t,
             )
 
-        self.parse_statement_delimiter(tokens)
+        if self.parse_statement_delimiter(tokens):
+            # After a Statement-Delimiter, the value cannot turn out to
+            # have been the next Parameter Name (see OmniParser).
+            self._simple_value = (None, value)
 
         return parameter_name, value
 
@@ -1011,12 +1014,14 @@ class OmniParser(PVLParser):
                 # Parameter Name if it was a bare word, so look at the
                 # token that it was decoded from, if that is known.
                 (last_token, v) = getattr(self, "_simple_value", (None, None))
-                if last_token is None or v is not last_v:
+                if v is not last_v:
+                    # Not known where the value came from.
                     last_token = Token(
                         last_v, grammar=self.grammar, decoder=self.decoder
                     )
                 if (
-                    type(last_v) is str
+                    last_token is not None
+                    and type(last_v) is str
                     and len(last_v) > 0
                     and last_token.is_parameter_name()
                 ):
